@@ -79,8 +79,14 @@ Section Insert.
 
   Lemma try_opts_allpos opts q : allpos q -> forall ex, try_opts D opts ex q = None.
   Proof.
-    intros H. induction opts as [|o opts IH]; intros ex; cbn [try_opts]; [reflexivity|].
-    destruct (mem_nat o ex); [apply IH|]. rewrite (m_opt_allpos o q false H). apply IH.
+    intros H ex. unfold try_opts.
+    assert (Hc : try_consume D opts ex q = None).
+    { induction opts as [|o opts IH]; cbn [try_consume]; [reflexivity|].
+      destruct (mem_nat o ex); [exact IH|]. now rewrite (m_opt_allpos o q false H). }
+    assert (He : try_env D opts ex q = None).
+    { clear Hc. induction opts as [|o opts IH]; cbn [try_env]; [reflexivity|].
+      destruct (mem_nat o ex); [exact IH|]. now rewrite (m_opt_allpos o q false H). }
+    now rewrite Hc, He.
   Qed.
 
   Lemma m_group_allpos js q r : allpos q -> m_group D js q r = None.
